@@ -499,6 +499,32 @@ def jsonreal_SimulationStep(n: int, seed: int, no: int, v1: int) -> bool:
     return jsonreal_obligation(X.SimulationStep, mk_sim(n, seed, None, None, None, mk_opts(no, 0, v1, 1, 2 ** 70)))
 
 
+def _log_trip(n, ci, ti):
+    """Log of n entries -> to_dict -> real json text -> from_dict: the same entries in the same order (the dict keys of
+    Log.to_dict are positions; JSON turns them into strings)."""
+    import json as _json
+    from pharmpy.workflows.log import CATEGORIES, Log
+    n = [i for i in range(15) if i == n][0]        # one path per length; concrete from here on
+    entries = tuple(LogEntry(CATEGORIES[(ci + i) % 3], 'message %d' % i, TIMES[(ti + i) % len(TIMES)]) for i in range(n))
+    log = Log(entries)
+    d = log.to_dict()
+    back = Log.from_dict(_json.loads(_json.dumps(d)))
+    direct = Log.from_dict(log.to_dict())
+    for other in (back, direct):
+        got = [(e.category, e.message, e.time) for e in other]
+        if got != [(e.category, e.message, e.time) for e in entries]:
+            return False
+    return len(log) == n and len(back) == n
+
+
+def jsonreal_Log(n: int, ci: int, ti: int) -> bool:
+    """
+    pre: 0 <= n <= 14 and 0 <= ci <= 2 and 0 <= ti < len(TIMES)
+    post: _ == True
+    """
+    return _log_trip(n, ci, ti)
+
+
 # ---------------------------------------------------------------------------------------------------------
 # reachability twins: a reachable object on which the obligation holds (and the round trip really yields an equal,
 # distinct object)
@@ -720,3 +746,11 @@ def jsonreal_SimulationStep__twin(n: int, seed: int, no: int, v1: int) -> bool:
     """
     return not _witness(jsonreal_obligation, X.SimulationStep,
                         mk_sim(n, seed, None, None, None, mk_opts(no, 0, v1, 1, 2 ** 70)))
+
+
+def jsonreal_Log__twin(n: int, ci: int, ti: int) -> bool:
+    """
+    pre: 11 <= n <= 14 and 0 <= ci <= 2 and 0 <= ti < len(TIMES)
+    post: _ == True
+    """
+    return not _log_trip(n, ci, ti)
